@@ -143,6 +143,9 @@ struct Laws {
   conj_oc: Evaluator,
   in_co: Evaluator,
   conj_co: Evaluator,
+  /// end points that are constructor calls over names (dates only)
+  in_cc_built: Evaluator,
+  in_oc_built: Evaluator,
 }
 
 fn prep(text: &str) -> Evaluator {
@@ -173,6 +176,8 @@ fn laws() -> Laws {
     conj_oc: prep("b < a and a <= c"),
     in_co: prep("a in [b..c)"),
     conj_co: prep("b <= a and a < c"),
+    in_cc_built: prep("a in [date(string(b))..date(string(c))]"),
+    in_oc_built: prep("a in (date(b.year, b.month, b.day)..date(c.year, c.month, c.day)]"),
   }
 }
 
@@ -328,6 +333,19 @@ fn check_triple(run: &Run, l: &Laws, ta: &str, a: &Value, tb: &str, b: &Value, t
         case("between-vs-interval"),
       );
     }
+  }
+  if ka == "date" {
+    for (name, built, plain) in [("[date(string(b))..date(string(c))]", &l.in_cc_built, &l.in_cc), ("(date(b.year, b.month, b.day)..date(c.year, c.month, c.day)]", &l.in_oc_built, &l.in_oc)] {
+      let (vb, vp) = (built(&s), plain(&s));
+      if tri(&vb) != tri(&vp) {
+        run.violation(
+          "interval-with-end-points-built-from-names:date",
+          &format!("`a in {}` gives {} but with the end points b and c themselves it gives {} for a = {}, b = {}, c = {}", name, tri_s(tri(&vb)), tri_s(tri(&vp)), ta, tb, tc),
+          case("interval-with-end-points-built-from-names"),
+        );
+      }
+    }
+    cnt.evals.fetch_add(2, Ordering::Relaxed);
   }
   cnt.evals.fetch_add(9, Ordering::Relaxed);
   cnt.instances.fetch_add(1, Ordering::Relaxed);
